@@ -623,6 +623,54 @@ def main():
         except Exception as ex:  # noqa: BLE001
             res.fail(f"restore after a change of time scheme raises sim={kind_}", f"{type(ex).__name__}: {str(ex)[:150]}", ident_)
 
+    # ... the same for the first-order problems: Thermal (thermal / thermalDot) and WeakForms (u / v), in both directions
+    for kind_ in ("thermal", "weakforms"):
+        ident_ = dict(sim=kind_, history="two parabolic steps saved, Solver_Set_Elliptic_Algorithm(), one static solve saved, Set_Iter(0), Set_Iter(1), Solver_Set_Parabolic_Algorithm(), Set_Iter(2), Set_Iter(0)")
+        res.case(("scheme-changed-before-restore", kind_))
+        res.count("scheme-changed-before-restore")
+        try:
+            from EasyFEA.FEM import Field as _Field, BiLinearForm as _BLF, MatrixType as _MT
+            msh_ = M.mesh_2d("QUAD4", 2.0, 1.0, 0.5)
+            if kind_ == "thermal":
+                sd_ = Simulations.Thermal(msh_, Models.Thermal(2.0, 3.0))
+                unk_, names_ = "t", ("thermal", "thermalDot")
+            else:
+                sd_ = Simulations.WeakForms(msh_, Models.WeakForms(_Field(msh_.groupElem, 1, _MT.mass), _BLF(lambda u, v: 2.0 * u.grad.dot(v.grad)), computeC=_BLF(lambda u, v: 3.0 * u * v)))
+                unk_, names_ = "u", ("u", "v")
+            sd_.rho = 1.5
+            sd_.Solver_Set_Parabolic_Algorithm(0.25, 0.5)
+            kept_ = []
+
+            def step_(k_):
+                sd_.Bc_Init()
+                sd_.add_dirichlet(msh_.Nodes_Conditions(lambda x, y, z: x == 0), [0.0], [unk_])
+                sd_.add_dirichlet(msh_.Nodes_Conditions(lambda x, y, z: x == 2.0), [1.0 + k_], [unk_])
+                sd_.Solve()
+                sd_.Save_Iter()
+                kept_.append({n_: np.asarray(getattr(sd_, n_), dtype=float).copy() for n_ in names_})
+            step_(0)
+            step_(1)
+            if not (np.abs(kept_[0][names_[1]]).max() > 0):
+                res.disagree("vacuous", dict(ident_, note="the parabolic steps produced no rate"))
+            sd_.Solver_Set_Elliptic_Algorithm()
+            step_(2)
+
+            def compare_(i_, fields_, after_):
+                sd_.Set_Iter(i_)
+                for n_ in fields_:
+                    got_ = np.asarray(getattr(sd_, n_), dtype=float)
+                    if got_.shape != kept_[i_][n_].shape or not (np.abs(got_ - kept_[i_][n_]).max() <= 1e-12 * (1 + np.abs(kept_[i_][n_]).max())):
+                        res.fail(f"restore after a change of time scheme sim={kind_} field={n_}",
+                                 f"Set_Iter({i_}) after {after_}: {n_} differs from the value stored with the iteration by "
+                                 f"{np.abs(got_ - kept_[i_][n_]).max() if got_.shape == kept_[i_][n_].shape else 'shape'} (stored max {np.abs(kept_[i_][n_]).max():.3e})", ident_)
+            compare_(0, names_, "Solver_Set_Elliptic_Algorithm()")
+            compare_(1, names_, "Solver_Set_Elliptic_Algorithm()")
+            sd_.Solver_Set_Parabolic_Algorithm(0.25, 0.5)
+            compare_(2, names_[:1], "Solver_Set_Parabolic_Algorithm() (iteration saved by a static solve)")
+            compare_(0, names_, "Solver_Set_Parabolic_Algorithm()")
+        except Exception as ex:  # noqa: BLE001
+            res.fail(f"restore after a change of time scheme raises sim={kind_}", f"{type(ex).__name__}: {str(ex)[:150]}", ident_)
+
     answers = driver.ask(lines)
     if answers is None:
         res.disagree("driver", "model driver does not run: " + getattr(driver, "error", "")[:400])
